@@ -189,6 +189,16 @@ class An:
                 return 'ok'
         return 'other'
 
+    def failing_blocks(self):
+        """blocks from which no non-error return-value assignment is reachable any more (the failing arm of a `?`, an
+        explicit `return Err(..)` path, a panic path): leaving a loop into one of them is not a normal loop exit."""
+        c = getattr(self, '_failing', None)
+        if c is None:
+            nonb = {b for (b, si, k, _) in self.ret_sites() if k != 'err'}
+            c = {b for b in self.cfg.reach0 if not (self.cfg.reach([b]) & nonb)}
+            self._failing = c
+        return c
+
     def error_blocks(self):
         """blocks from which every path to `return` carries an error value: computed as blocks only reachable
         *after* an err ret-site and from which no ok/other ret-site is reachable."""
